@@ -56,6 +56,51 @@ def real_scorer_load(path, enc):
     return dict(c) if ok else None
 
 
+def multi_file_case(rng, root):
+    """one folder of terminal files, a `filenames` list over it (an older file of the same variable listed too, a name twice, sometimes a
+    missing file) -> (driver ops, expected answer of the real `_load_from_multiple_files`)"""
+    import json
+    common.use_impl()
+    from lib_guesser import grammar_io
+    folder = os.path.join(root, 'multi')
+    if os.path.exists(folder):
+        import shutil
+        shutil.rmtree(folder)
+    os.makedirs(os.path.join(folder, 'Digits'))
+    cat = rng.choice(['D', 'A', 'O', 'K'])
+    pool = ['1.txt', '2.txt', '3.txt', '1.old.txt', '2.bak.txt', '10.txt', '1.txt.orig', '02.txt']
+    on_disk = rng.sample(pool, rng.randint(1, 5))
+    texts = {}
+    for fn in on_disk:
+        texts[fn] = cl.gen_terminal_text(rng, malformed=rng.random() < 0.15)
+        with open(os.path.join(folder, 'Digits', fn), 'wb') as f:
+            f.write(texts[fn].encode('utf-8'))
+    listed = [rng.choice(on_disk) for _ in range(rng.randint(1, 5))]
+    if rng.random() < 0.15:
+        listed.insert(rng.randint(0, len(listed)), 'missing.txt')
+    grammar = {'untouched': [{'values': ['x'], 'prob': 0.5}]}
+    section = {'directory': 'Digits', 'filenames': json.dumps(listed), 'name': cat}
+    err = io.StringIO()
+    with contextlib.redirect_stderr(err), contextlib.redirect_stdout(err):
+        try:
+            ok = grammar_io._load_from_multiple_files(grammar, section, folder, 'utf-8')
+        except Exception as e:
+            ok = None
+    ops = ['ld.new']
+    for fn in on_disk:
+        ops += cl.float_ops(texts[fn])
+    ops.append(' '.join(['ld.multi', cat, str(len(listed))] + [cl.cps(f) for f in listed] + [x for fn in on_disk for x in (cl.cps(fn), cl.cps(texts[fn]))]))
+    if not ok:
+        want = 'fail'
+    else:
+        names = sorted(k for k in grammar if k != 'untouched')
+        want = ' '.join(['vars'] + [nm + '=' + ' '.join(['ok'] + [' '.join(['|', f2h(g['prob'])] + [cl.cps(v) for v in g["values"]]) for g in grammar[nm]])
+                                    for nm in names])
+        if grammar.get('untouched') != [{'values': ['x'], 'prob': 0.5}]:
+            want += ' other-variable-changed'
+    return ops, ['ok'] * (len(ops) - 1) + [want], {'listed': listed, 'on_disk': on_disk, 'same_variable_twice': len({f.split('.')[0] for f in listed}) < len(listed)}
+
+
 def run(ctx):
     rng = ctx.rng
     viol, samples, disagreements = [], [], []
@@ -258,6 +303,15 @@ def run(ctx):
             sln = {i: l for i, l in enumerate(sc.ln) if i >= g['ngram']}
             if gln != sln:
                 viol.append({'property': 'C07', 'kind': 'omen-length-loaders-differ', 'witness': {'passwords': pws, 'encoding': enc}})
+    # 4. `_load_from_multiple_files` against the Lean model: several files per variable, a name listed twice, missing files
+    multi_meta = {}
+    for _ in range(ctx.scale(40, 400)):
+        mo, me, info = multi_file_case(rng, root)
+        multi_meta[len(ops) + len(mo) - 1] = info
+        ops += mo
+        exp += me
+        cases += 1
+        dist['multi_same_variable_twice'] = dist.get('multi_same_variable_twice', 0) + int(info['same_variable_twice'])
     if ctx.driver_ok:
         out = common.run_driver(ops)
         for i, (a, b) in enumerate(zip(out, exp)):
